@@ -1821,6 +1821,9 @@ class ShortcutNode(ListNode):
                 edge = self.nodes[0]
             if edge.type != node.type or edge.value is None or node.value is None:
                 return False
+            # the sign of a negatable value (U's minus sign, a mass density) is kept apart from its value
+            if edge.is_negative != node.is_negative:
+                return False
             if edge.type in {int, float} and math.isclose(
                 edge.value, node.value, rel_tol=rel_tol, abs_tol=abs_tol
             ):
